@@ -3,6 +3,7 @@ C05 — command-line words bindArgs to recipes and parameters as documented.
 Theorems about `Just.Args` (model of the argument parser and `evaluate_parameters`).
 -/
 import Just.Model.Args
+import Just.Lemmas.Words
 namespace Just.Props.C05
 open Just.Args
 
@@ -486,5 +487,42 @@ example : validParams [⟨.singular, none⟩, ⟨.singular, some [.lit "d", .ref
 example : bindArgs [⟨.singular, none⟩, ⟨.singular, some [.lit "d", .ref 0]⟩, ⟨.star, none⟩] ["x"] [] =
     .ok ["x", "dx", ""] := by
   simp [bindArgs, evalDefault, Param.isVariadic]
+
+/-! ### one leading word: override before directory (model `Just.Words`, on characters) -/
+open Just.Words in
+/-- **a leading `NAME=VALUE` word is an override whatever VALUE contains** — slashes, dots, `::`,
+further `=` signs, nothing at all: the override test comes before the search-directory test, so
+`prefix=/usr/local`, `out=build/x86` and `dir=../` set variables and name no directory -/
+theorem override_whatever_the_value (n v : List Char) (hn : isIdentifier n = true) :
+    classify (n ++ '=' :: v) = .override n v := by
+  unfold classify
+  rw [splitFirstEq_append n v (ident_no_eq n hn)]
+  simp [hn]
+
+open Just.Words in
+/-- **`DIR/recipe`**: a leading word without `=` that contains a slash names the directory up to its
+last slash, and what follows the slash — if anything — is the first argument -/
+theorem dir_recipe_form (w : List Char) (hne : '=' ∉ w) (hs : '/' ∈ w) (hd : w ≠ ['.'] ∧ w ≠ ['.', '.']) :
+    classify w = .searchDir (splitLastSlash w).1
+      (if (splitLastSlash w).2 = [] then none else some (splitLastSlash w).2) := by
+  have hsplit : splitFirstEq w = none := by
+    clear hs hd
+    induction w with
+    | nil => rfl
+    | cons c cs ih =>
+      have hc : c ≠ '=' := fun e => hne (by simp [e])
+      have := ih (fun m => hne (List.mem_cons_of_mem _ m))
+      simp [splitFirstEq, hc, this]
+  unfold classify
+  rw [hsplit]
+  simp [dirOrArgument, hd.1, hd.2, hs]
+
+open Just.Words in
+/-- non-vacuity -/
+example : classify "prefix=/usr/local".toList = .override "prefix".toList "/usr/local".toList ∧
+    classify "sub/dir/build".toList = .searchDir "sub/dir/".toList (some "build".toList) ∧
+    classify "../".toList = .searchDir "../".toList none ∧
+    classify "1a=x/y".toList = .searchDir "1a=x/".toList (some "y".toList) ∧
+    classify "build".toList = .argument "build".toList := by decide
 
 end Just.Props.C05
